@@ -1,0 +1,9 @@
+//go:build verif
+
+package daemon
+
+// VerifYield is a schedule hook used by the verification demonstrations only (build tag "verif").
+// It is called at named points at which a concurrent operation may be interleaved.
+var VerifYield = func(point string) {}
+
+func verifYield(point string) { VerifYield(point) }
